@@ -21,13 +21,29 @@ ATOMS = [['RRG', False], ['RRG', True], ['MU'], ['MDG'], ['MEG']]
 def pipelines(max_depth=2):
     atom = st.sampled_from(ATOMS)
 
-    def ext(inner):
+    # 'wrap': a pass of a user of the library (a Transformer subclass that itself only copies) which declares library
+    # passes to run before and after it - those bring their own implied passes along (nested dependencies).
+    # Never inside the LEFT operand of `|`: the operator writes the left operand's declared passes into the composition
+    # and they are implied once more when it is applied - invisible for the library's passes (they declare only the
+    # idempotent RemoveRedundantGates) and outside what the statement says about them (DESIGN 7.7, round 13).
+    wrap = st.tuples(st.just('wrap'), st.lists(atom, max_size=2), st.lists(atom, min_size=1, max_size=2)).map(list)
+    leaf = st.one_of(atom, atom, atom, wrap)
+
+    def ext_plain(inner):
         return st.one_of(
             st.tuples(st.just('pipe'), inner, inner).map(list),
             st.tuples(st.just('comp'), st.lists(inner, min_size=1, max_size=3)).map(list),
         )
 
-    return st.recursive(atom, ext, max_leaves=5)
+    plain = st.recursive(atom, ext_plain, max_leaves=4)
+
+    def ext(inner):
+        return st.one_of(
+            st.tuples(st.just('pipe'), plain, inner).map(list),
+            st.tuples(st.just('comp'), st.lists(inner, min_size=1, max_size=3)).map(list),
+        )
+
+    return st.recursive(leaf, ext, max_leaves=5)
 
 
 @st.composite
@@ -108,6 +124,8 @@ def make_atom(a):
     m = _mods()
     if a[0] == 'RRG':
         return m['RRG'](allow_inputs_removal=bool(a[1]))
+    if a[0] == 'COPY':
+        return through_class()()
     return m[a[0]]()
 
 
@@ -120,12 +138,31 @@ def build_transformer(spec):
         return build_transformer(spec[1]) | build_transformer(spec[2])
     if spec[0] == 'comp':
         return m['TransformerComposition']([build_transformer(s) for s in spec[1]])
+    if spec[0] == 'wrap':
+        return through_class()(pre_transformers=tuple(make_atom(a) for a in spec[1]), post_transformers=tuple(make_atom(a) for a in spec[2]))
     raise ValueError(spec)
+
+
+_THROUGH: list = []
+
+
+def through_class():
+    if not _THROUGH:
+        base = _mods()['Transformer']
+
+        class Through(base):
+            """Copies its argument; everything it does is in the passes it declares."""
+
+            def _transform(self, circuit):
+                return copy.copy(circuit)
+
+        _THROUGH.append(Through)
+    return _THROUGH[0]
 
 
 def atoms_of(spec) -> list:
     """Constituent atomic passes, in application order."""
-    if spec[0] in ('RRG', 'MU', 'MDG', 'MEG'):
+    if spec[0] in ('RRG', 'MU', 'MDG', 'MEG', 'COPY'):
         return [spec]
     if spec[0] == 'pipe':
         return atoms_of(spec[1]) + atoms_of(spec[2])
@@ -136,6 +173,9 @@ def atoms_of(spec) -> list:
         return out
     if spec[0] == 'cleanup':
         return [['RRG', False], ['MU'], ['MDG']] + ([['MEG']] if spec[1] else [])
+    if spec[0] == 'wrap':
+        # (the user's pass itself is a constituent too: copying may store the gates in another order)
+        return [list(a) for a in spec[1]] + [['COPY']] + [list(a) for a in spec[2]]
     raise ValueError(spec)
 
 
@@ -210,6 +250,8 @@ def netlist_twin_classes(nl) -> set:
 def spec_classes(spec) -> set:
     cls = {'top:' + (spec[0] if spec[0] in ('pipe', 'comp', 'list', 'cleanup') else 'atom')}
     at = atoms_of(spec)
+    if "'wrap'" in repr(spec):
+        cls.add('declared_dependencies')
     for a in at:
         cls.add('pass:' + a[0] + ('+rm' if a[0] == 'RRG' and a[1] else ''))
     if any(at[i] == at[i + 1] for i in range(len(at) - 1)):
